@@ -66,8 +66,8 @@ def BOOL(b):
     return ["con", "bool", b]
 
 
-KINDS_V3 = ["trace", "unit", "fail", "echo", "nonunit_int", "nonunit_true", "nonunit_false", "nonunit_lam"]
-KINDS_V12 = ["echo", "echo3", "unit", "fail"]
+KINDS_V3 = ["trace", "unit", "pvsens", "fail", "echo", "nonunit_int", "nonunit_true", "nonunit_false", "nonunit_lam"]
+KINDS_V12 = ["echo", "echo3", "unit", "pvsens", "fail"]
 
 
 def probe_term(kind, arity, salt, n=0):
@@ -78,6 +78,7 @@ def probe_term(kind, arity, salt, n=0):
     trace    logs serialiseData ctx as two strings (low 7 bits of every byte, then the top
              bit of every byte) and returns unit                             (V3)
     unit     returns unit after n identity applications (builtin free, constant cost)
+    pvsens   returns unit after an appendString whose cost depends on the protocol version
     fail     (error)
     nonunit_* returns something that is not unit                             (V3)
     """
@@ -99,6 +100,11 @@ def probe_term(kind, arity, salt, n=0):
             body = APP(LAM(V(1)), body)
     elif kind == "fail":
         body = ["error"]
+    elif kind == "pvsens":
+        # appendString of non-ASCII text: its cost depends on whether strings are measured in
+        # characters or in UTF-8 bytes, which the protocol version decides
+        text = "\u00e9" * (40 + salt % 8)
+        body = APP(LAM(UNIT), APP(BI("appendString"), ["con", "string", text], ["con", "string", "\u20ac\u20ac\u20ac"]))
     elif kind == "trace":
         bs = V(1)
         length = APP(BI("lengthOfByteString"), bs)
@@ -309,6 +315,13 @@ class TxModel:
         self.donation = None
         self.uses = []
         self.extra_datums = []
+        self.collateral = []  # [(txid, ix)]
+        self.collateral_return = None
+        self.total_collateral = None
+        self.network_id = None
+        self.aux_hash = None
+        self.vkeys = []  # [(vkey, signature)]
+        self.native_scripts = []  # encoder objects of native scripts in the witness set
         self.redeemer_format = "list"
         self.set_tags = False
         self.langs = set()
@@ -440,13 +453,23 @@ class TxModel:
             pairs.append((4, self._set([self.enc_cert(c) for c in self.certs])))
         if self.withdrawals:
             pairs.append((5, Map([(reward_addr(self.net, c), coin) for c, coin in self.withdrawals])))
+        if self.aux_hash is not None:
+            pairs.append((7, self.aux_hash))
         if self.start is not None:
             pairs.append((8, self.start))
         if self.mint:
             pairs.append((9, Map([(p, Map([(n, q) for n, q in assets])) for p, assets in self.mint])))
         pairs.append((11, b256(b"script data hash is not checked by the simulator")))
+        if self.collateral:
+            pairs.append((13, self._set([[t, i] for t, i in self.collateral])))
         if self.signers:
             pairs.append((14, self._set(self.signers)))
+        if self.network_id is not None:
+            pairs.append((15, self.network_id))
+        if self.collateral_return is not None:
+            pairs.append((16, self.enc_output(self.collateral_return)))
+        if self.total_collateral is not None:
+            pairs.append((17, self.total_collateral))
         if self.ref_inputs:
             pairs.append((18, self._set([[i["txid"], i["ix"]] for i in self.ref_inputs])))
         if self.votes:
@@ -552,6 +575,10 @@ class TxModel:
             redeemers.append((TAGNO[t], ix, d, [1000, 1000]))
         redeemers = shuffled(redeemers, "redeemer_perm")
         wit = []
+        if self.vkeys:
+            wit.append((0, self._set([[k, sg] for k, sg in self.vkeys])))
+        if self.native_scripts:
+            wit.append((1, self._set(list(self.native_scripts))))
         for lang in ("v1",):
             if scripts[lang]:
                 wit.append((3, self._set(shuffled(scripts[lang], "wit_perm"))))
@@ -697,13 +724,17 @@ def gen_tx(rng, pool, opts=None):
         # purposes every language knows
         plan = [(lang, p if p in PURPOSES_V12 else rng.pick(PURPOSES_V12)) for lang, p in plan]
     m.langs = langs
-    kinds = o.get("kinds") or {"v1": ["echo3", "echo3", "echo", "unit"], "v2": ["echo3", "echo3", "echo", "unit"], "v3": ["trace", "trace", "trace", "unit"]}
+    kinds = o.get("kinds") or {"v1": ["echo3", "echo3", "echo3", "echo", "unit", "pvsens"], "v2": ["echo3", "echo3", "echo3", "echo", "unit", "pvsens"],
+                               "v3": ["trace", "trace", "trace", "trace", "unit", "pvsens"]}
     used = set()
     guardrail = None
     for lang, purpose in plan:
         arity = arity_of(lang, purpose)
+        shareable = [u["script"] for u in m.uses if u["purpose"] == "spend" and u["script"]["lang"] == lang]
         if purpose == "propose" and guardrail is not None:
             script = guardrail
+        elif purpose == "spend" and shareable and o.get("share", True) and rng.chance(1, 4):
+            script = rng.pick(shareable)  # several inputs locked by one script
         else:
             script = pick_script(rng, pool, used, lang, arity, rng.pick(kinds[lang]))
             if script is None:
@@ -714,6 +745,9 @@ def gen_tx(rng, pool, opts=None):
         if not has_v1 and rng.chance(2, 5) and o.get("ref_scripts", True):
             u["source"] = rng.pick(["ref", "ref", "ref_spent"])
         m.uses.append(u)
+    for u in m.uses:
+        first = next(x for x in m.uses if x["script"] is u["script"])
+        u["source"] = first["source"]
     if guardrail is not None:
         # one script, one source
         src = next(u["source"] for u in m.uses if u["script"] is guardrail)
@@ -807,6 +841,18 @@ def gen_tx(rng, pool, opts=None):
         m.ttl = 4492800 + 10 ** 8 + rng.range(1, 10 ** 6)
     if noise and rng.chance(1, 2):
         m.signers = [_h28(rng) for _ in range(rng.range(1, 3))]
+    if noise and rng.chance(1, 2):
+        # what a real script transaction carries besides: collateral, key witnesses, ..
+        m.collateral = [(_h32(rng), rng.below(4)) for _ in range(rng.range(1, 2))]
+        if rng.chance(1, 2):
+            m.collateral_return = gen_output(rng, m, pay=("key", _h28(rng)), allow_inline=False)
+            m.collateral_return["datum"] = None
+            m.total_collateral = rng.range(1_000_000, 9_000_000)
+        if rng.chance(1, 2):
+            m.network_id = m.net
+        if rng.chance(1, 3):
+            m.aux_hash = _h32(rng)
+        m.vkeys = [(_h32(rng), rng.bytes(64)) for _ in range(rng.range(1, 2))]
 
     # ---- mint
     for u in m.uses:
